@@ -72,6 +72,9 @@ def run_c03(rep):
                          weights=dict(read=45, choose=35, goto=8, save=6), oracle_names=["oracle_c03", "oracle_c10"],
                          known_classes=known_classes("C03") | known_classes("C10") | known_classes("C08"), label="c03")
     # (the commands in the block of a `-> @join` choice run exactly once too: each block bumps its own counter — C10's oracle)
+    # reads never consume anything the story holds (one-shot iterators, ranges, sets, deques kept in variables): real code only
+    import fam_reads
+    fam_reads.reads_invisible(rep, sizes(rep, 25, 400), "C03")
 
 
 def run_c04(rep):
@@ -247,10 +250,10 @@ def run_c08(rep):
     n, ops = sizes(rep, (400, 14), (6000, 40))
     # (the chain's text must come with the FINAL passage's choices: the C02 oracle judges the offered list, join sections included)
     families.play_family(rep, n, ops, features=dict(top_jumps=0.6, block_jumps=0.7, markers=0.95, loops=0.5, conds=0.8,
-                                                    jump_mode_cycles=0.3, params=0.3, join=0.35),
+                                                    jump_mode_cycles=0.3, params=0.3, join=0.35, odd_names=0.3),
                          weights=dict(choose=65, goto=12, undo=5, redo=3, read=8, bad=3),
                          oracle_names=["oracle_c08", "oracle_c02"], known_classes=known_classes("C08") | known_classes("C02"), label="c08")
-    compile_tie(rep, "c08-compile", dict(top_jumps=0.6, block_jumps=0.7, loops=0.5, conds=0.8, params=0.3))
+    compile_tie(rep, "c08-compile", dict(top_jumps=0.6, block_jumps=0.7, loops=0.5, conds=0.8, params=0.3, odd_names=0.3))
     c08_ring_probes(rep)
 
 
@@ -275,8 +278,11 @@ def run_c05(rep):
     n, ops, pts = sizes(rep, (200, 14, 3), (3000, 40, 6))
     fam_saveload.saveload_family(rep, n, ops, pts, known_classes=known_classes("C05"))
     fam_saveload.session_probes(rep)
+    import fam_reads
+    fam_reads.reads_invisible(rep, sizes(rep, 15, 300), "C05")      # "save_state() ... has no effect on the running game"
     import fam_codec
     fam_codec.stdlib_observation_family(rep, sizes(rep, 300, 5000))
+    fam_codec.same_name_probe(rep, "C05")
     n2, ops2 = sizes(rep, (300, 16), (4000, 40))
     families.play_family(rep, n2, ops2, features=dict(hooks=0.5, join=0.4, params=0.3),
                          weights=dict(choose=50, save=12, load=8, fresh=8, loadbad=4, undo=6, redo=3, goto=4, read=5),
@@ -295,6 +301,7 @@ def run_c06(rep):
     n, depth = sizes(rep, (2000, 6), (50000, 12))
     fam_codec.codec_family(rep, n, depth)
     fam_codec.stdlib_observation_family(rep, sizes(rep, 300, 5000))
+    fam_codec.same_name_probe(rep, "C06")
     # names bound by import lines are still usable after a load
     src = ("import math\nfrom bardic.stdlib.dice import roll\nfrom bardic.stdlib.economy import Wallet\n"
            ":: Start\n~ w = Wallet(3)\nhi\n+ [go] -> Next\n\n:: Next\n~ w2 = Wallet(math.floor(2.5))\n"
@@ -386,6 +393,8 @@ def run_c16(rep):
     fam_share.compile_determinism(rep, rep.seed, sizes(rep, 60, 800))
     fam_share.engine_isolation(rep)
     fam_share.inputs_isolation(rep, sizes(rep, 40, 600))
+    import fam_reads
+    fam_reads.reads_invisible(rep, sizes(rep, 15, 300), "C16")      # same inputs, same outputs, whatever is read in between
     # compilation is a function of the files as they are NOW: an included file edited between two compilations
     import fam_include
     fam_include.edit_recompile_probe(rep, "C16")
